@@ -118,3 +118,34 @@ def run(tier, seed, escalate=False):
 
 
 replay = P.replay
+
+
+# ------------------------------------------------------------------ the same numbers stored in another dtype
+from oracles import dtype_independence, merge_oracle
+from common import np, dnp
+DTYPE_CASES = [("apodize-" + k, (lambda k, kw: lambda d, dim: dnp.apodize(d, dim, kind=k, **kw))(k, kw), "t2")
+    for k, kw in (("exponential", {"lw": 0.05}), ("gaussian", {"lw": 0.05}), ("traf", {"lw": 0.05}), ("hann", {}), ("hamming", {}), ("sin2", {}))]
+_run_before_dtype = run
+
+
+def run(tier, seed, escalate=False):
+    """… plus: integer / single-precision / complex storage of the values and integer / unsigned / single-precision storage of
+    the processed axis give the result of the float64 object (a dtype the function refuses is not judged)"""
+    res = _run_before_dtype(tier, seed, escalate)
+    f, n = dtype_independence("C15", DTYPE_CASES, seed, dim_positions=(1,) if tier == "quick" and not escalate else (0, 1, 2))
+    return merge_oracle(res, f, n, "storage_dtype_variants")
+
+
+# ------------------------------------------------------------------ the same axis in another unit
+from oracles import axis_scale_independence
+SCALE_CASES = [("apodize-exponential", lambda d, dim, s: dnp.apodize(d, dim, kind="exponential", lw=0.07 / s), "t2", lambda s: 1.0, lambda s: s),
+    ("apodize-gaussian", lambda d, dim, s: dnp.apodize(d, dim, kind="gaussian", lw=0.07 / s), "t2", lambda s: 1.0, lambda s: s),
+    ("apodize-hann", lambda d, dim, s: dnp.apodize(d, dim, kind="hann"), "t2", lambda s: 1.0, lambda s: s)]
+_run_before_scale = run
+
+
+def run(tier, seed, escalate=False):
+    """… plus: the processed axis expressed at scales 1e-9 … 1e6 (coordinate-valued arguments scaled alike)"""
+    res = _run_before_scale(tier, seed, escalate)
+    f, n = axis_scale_independence("C15", SCALE_CASES, seed)
+    return merge_oracle(res, f, n, "axis_scale_variants")
